@@ -27,7 +27,8 @@ RULE = ("Each run = one generated symbolic metric (dim 2/3/4; diagonal, "
         "Non-trivial: metric non-flat AND >=1 of Riemann_down/Ricci_down "
         "was computed. Distinct = distinct (dim, family, simplify, request "
         "order).")
-PROBES = ['nondiagonal_metric', 'simplify_true', 'simplify_false',
+PROBES = ['request_interrupted', 'request_after_interruption_checked',
+          'nondiagonal_metric', 'simplify_true', 'simplify_false',
           'special_family', 'earlier_instance_in_session',
           'riemann_down_from_cached_uddd', 'riemann_down_direct',
           'ricci_from_cached_uddd', 'ricci_direct', 'dim2', 'dim3', 'dim4',
@@ -73,6 +74,30 @@ SPECIAL = ['double_null2', 'ppwave4', 'radiation_flrw4', 'zero_minor3',
 
 
 def generate(rng, tier):
+    run = _generate(rng, tier)
+    # fault: a request is interrupted between caching the raw result and its
+    # post-processing (simplify=True: inside the n-th sympy.simplify call of
+    # the request; otherwise inside the n-th progress message, verbose=True);
+    # the caller asks again afterwards
+    gf = rng.child('c15faults')
+    if gf.chance(0.3):
+        cfg = run['config']
+        seam = 'simplify' if cfg['simplify'] else 'print'
+        cfg['verbose'] = seam == 'print'
+        ops = []
+        for op in run['ops']:
+            if gf.chance(0.35):
+                ops.append(dict(op, fault={'seam': seam, 'at': gf.weighted(
+                    [(1, 4), (2, 3), (3, 2), (4, 1)])}))
+                if gf.chance(0.7):
+                    ops.append(dict(op))          # the retry
+            else:
+                ops.append(op)
+        run['ops'] = ops
+    return run
+
+
+def _generate(rng, tier):
     g = rng.child('c15')
     if g.chance(0.2):
         # classic metrics with special structure (null coordinates, vanishing
@@ -146,6 +171,9 @@ def fixup(run):
 
 
 def simplify(run):
+    for i, o in enumerate(run['ops']):
+        if o.get('fault'):
+            c = copy.deepcopy(run); del c['ops'][i]['fault']; yield c
     cfg = run['config']
     if cfg.get('special'):
         if cfg['simplify']:
@@ -354,7 +382,70 @@ def execute(run):
                 'inconclusive': 1, 'logical': {'ops': len(run['ops'])}}
 
 
+class InjectedFault(Exception):
+    """The simulated interruption of a request."""
+
+
+class _Seams:
+    """aurel.coresymbolic's names `sp` (sympy) and `print`, owned by the
+    simulator: the n-th simplify / print of an armed request raises."""
+
+    def __init__(self):
+        import sympy
+        import aurel.coresymbolic as cs
+        self.cs, self.sympy = cs, sympy
+        self.armed = None
+        self.count = 0
+        self.fired = False
+        seams = self
+
+        class SpProxy:
+            def simplify(self_, *a, **k):
+                seams.hit('simplify')
+                return sympy.simplify(*a, **k)
+
+            def __getattr__(self_, name):
+                return getattr(sympy, name)
+
+        def fprint(*a, **k):
+            seams.hit('print')
+
+        self.old_sp = cs.sp
+        cs.sp = SpProxy()
+        cs.print = fprint
+
+    def hit(self, seam):
+        a = self.armed
+        if a is None or a['seam'] != seam:
+            return
+        self.count += 1
+        if self.count == a['at']:
+            self.armed = None
+            self.fired = True
+            raise InjectedFault(f'interrupted in {seam} call #{self.count}')
+
+    def arm(self, spec):
+        self.armed = dict(spec) if spec else None
+        self.count = 0
+        self.fired = False
+
+    def close(self):
+        self.cs.sp = self.old_sp
+        try:
+            del self.cs.print
+        except AttributeError:
+            pass
+
+
 def _execute(run):
+    seams = _Seams()
+    try:
+        return _execute2(run, seams)
+    finally:
+        seams.close()
+
+
+def _execute2(run, seams):
     import sympy as sp
     import aurel
     from ..digest import Trace, digest
@@ -397,7 +488,7 @@ def _execute(run):
             probe('earlier_instance_in_session')
         except Exception:  # noqa: BLE001 - the prelude claims nothing
             pass
-    rel = aurel.AurelCoreSymbolic(xs, verbose=False,
+    rel = aurel.AurelCoreSymbolic(xs, verbose=bool(cfg.get('verbose')),
                                   simplify=cfg['simplify'])
     rel.data['gdown'] = g
     from ..runner import RunTimeout
@@ -405,6 +496,7 @@ def _execute(run):
     timed_out = False
     curved = False
     asked = set()
+    interrupted = False
     try:
         for opi, op in enumerate(run['ops']):
             if viol:
@@ -419,8 +511,21 @@ def _execute(run):
                 probe('ricci_from_cached_uddd' if 'Riemann_uddd' in rel.data
                       else 'ricci_direct')
             state = sorted(k for k in rel.data if k != 'gdown')
+            seams.arm(op.get('fault'))
             try:
                 val = rel[key]
+                seams.arm(None)
+            except InjectedFault:
+                # the interrupted request promises nothing; what it left in
+                # the cache is judged by every later request
+                seams.arm(None)
+                faults['request_interrupted'] = faults.get(
+                    'request_interrupted', 0) + 1
+                probe('request_interrupted')
+                probe('interrupted_in_' + op['fault']['seam'])
+                interrupted = True
+                tr.event('get', key=key, outcome='interrupted')
+                continue
             except Exception as e:  # noqa: BLE001
                 viol.append({'sig': f'raised:{key}:{type(e).__name__}',
                              'op': opi,
@@ -428,6 +533,8 @@ def _execute(run):
                                     f'{type(e).__name__}: {e}'})
                 break
             asked.add(key)
+            if interrupted:
+                probe('request_after_interruption_checked')
             got = _flat(val, sp)
             tr.event('get', key=key, n=len(got))
             for p, ref in zip(pts, refs):
